@@ -1,1 +1,558 @@
-//! C12 harnesses (see /verif/tools/HARNESS_GUIDE.md).
+//! C12 — quantiles, percentile ranks, ranks and partitions are true order statistics.
+//!
+//! Shape of every harness: the input is described by an array of integer *keys*
+//! `[Option<i32>; N]` (`None` = null); the element array handed to tevec is derived from it
+//! (`Option<i32>` as is, `f64` as `key as f64` / NaN). The oracle works on the keys only: the
+//! insertion-sorted valid keys `s[0..n]` computed with plain loops.
+//!
+//! Input classes (`Alpha`): `Small` = keys in -2..=2 (forces ties), `Any` = unconstrained i32.
+//!
+//! Genuine defects of the pinned tree are isolated in their own harness / assertion message
+//! (see the `*_single_*` quantile harnesses, "null element gets a null rank" and
+//! "partition yields exactly k+1 entries").
+use tea_agg::{AggValidExt, PercentileOfMethod, QuantileMethod, VecAggValidExt};
+use tea_core::prelude::*;
+use tea_map::MapValidVec;
+
+use crate::util::*;
+
+// ---------------------------------------------------------------------------------------------
+// elements and keys
+// ---------------------------------------------------------------------------------------------
+
+pub trait Elt: Copy + IsNone + PartialEq + Cast<f64> + 'static {
+    fn from_key(k: Option<i32>) -> Self;
+    /// key of an element that came back from tevec (exact for the values used here)
+    fn key(self) -> Option<i32>;
+}
+
+impl Elt for Option<i32> {
+    fn from_key(k: Option<i32>) -> Self {
+        k
+    }
+    fn key(self) -> Option<i32> {
+        self
+    }
+}
+
+impl Elt for f64 {
+    fn from_key(k: Option<i32>) -> Self {
+        match k {
+            None => f64::NAN,
+            Some(v) => v as f64,
+        }
+    }
+    fn key(self) -> Option<i32> {
+        if self != self { None } else { Some(self as i32) }
+    }
+}
+
+/// symbolic keys: null mask unconstrained; values from -2..=2 (`small`) or any i32
+pub fn sym_keys<const N: usize>(small: bool) -> [Option<i32>; N] {
+    let mut k = [None; N];
+    let mut i = 0;
+    while i < N {
+        if kani::any() {
+            k[i] = Some(if small { small_i32(-2, 2) } else { kani::any() });
+        }
+        i += 1;
+    }
+    k
+}
+
+pub fn to_vec<T: Elt, const N: usize>(k: &[Option<i32>; N]) -> Vec<T> {
+    let mut v = Vec::with_capacity(N);
+    let mut i = 0;
+    while i < N {
+        v.push(T::from_key(k[i]));
+        i += 1;
+    }
+    v
+}
+
+/// insertion-sorted valid keys (ascending) and their number
+pub fn sorted_valid<const N: usize>(k: &[Option<i32>; N]) -> ([i32; N], usize) {
+    let mut s = [0i32; N];
+    let mut n = 0;
+    let mut i = 0;
+    while i < N {
+        if let Some(v) = k[i] {
+            let mut j = n;
+            while j > 0 && s[j - 1] > v {
+                s[j] = s[j - 1];
+                j -= 1;
+            }
+            s[j] = v;
+            n += 1;
+        }
+        i += 1;
+    }
+    (s, n)
+}
+
+// ---------------------------------------------------------------------------------------------
+// vquantile / vmedian
+// ---------------------------------------------------------------------------------------------
+
+/// the q grid as exact rationals a/b (and the f64 handed to tevec)
+pub const QGRID: [(usize, usize, f64); 7] =
+    [(0, 1, 0.0), (1, 4, 0.25), (1, 3, 1.0 / 3.0), (1, 2, 0.5), (2, 3, 2.0 / 3.0), (3, 4, 0.75), (1, 1, 1.0)];
+pub const NMAX: usize = 6;
+
+/// Reference position of the q-quantile among n sorted valid elements, in exact rational arithmetic:
+/// (n-1)*a/b = lo + rem/b. Tables are indexed [n][qi] and evaluated at compile time, so a symbolic
+/// (n, qi) costs one table lookup and no arithmetic in the solver.
+pub struct QPos {
+    pub lo: usize,
+    pub hi: usize,
+    pub fractional: bool,
+    pub frac: f64,
+    /// DESIGN 5.5: (n-1)q is an integer whose f64 evaluation is exact, or at least 1/4 away from an
+    /// integer. Thirds are not representable, so a product with thirds that is an integer in exact
+    /// arithmetic is "within rounding distance of an integer" and off the grid.
+    pub on_grid: bool,
+}
+
+pub const fn qpos(n: usize, qi: usize) -> QPos {
+    let (a, b, _) = QGRID[qi];
+    if n == 0 {
+        return QPos { lo: 0, hi: 0, fractional: false, frac: 0.0, on_grid: true };
+    }
+    let num = (n - 1) * a;
+    let lo = num / b;
+    let rem = num % b;
+    let hi = if rem == 0 { lo } else { lo + 1 };
+    let on_grid = if rem == 0 { b != 3 || num == 0 } else { 4 * rem >= b && 4 * (b - rem) >= b };
+    QPos { lo, hi, fractional: rem != 0, frac: rem as f64 / b as f64, on_grid }
+}
+
+pub const fn qtable() -> [[QPos; 7]; NMAX] {
+    let mut t = [const { [const { QPos { lo: 0, hi: 0, fractional: false, frac: 0.0, on_grid: true } }; 7] }; NMAX];
+    let mut n = 0;
+    while n < NMAX {
+        let mut qi = 0;
+        while qi < 7 {
+            t[n][qi] = qpos(n, qi);
+            qi += 1;
+        }
+        n += 1;
+    }
+    t
+}
+pub static QTAB: [[QPos; 7]; NMAX] = qtable();
+
+pub fn method_of(m: u8) -> QuantileMethod {
+    match m {
+        0 => QuantileMethod::Linear,
+        1 => QuantileMethod::Lower,
+        2 => QuantileMethod::Higher,
+        _ => QuantileMethod::MidPoint,
+    }
+}
+
+/// Slice of the input space by the number n of valid elements. n == 1 is kept apart from the rest
+/// for N >= 2 because the pinned tree has a defect exactly there (the shortcut reads slot 0).
+#[derive(Clone, Copy, PartialEq)]
+pub enum Split {
+    All,
+    NotOne,
+    One,
+}
+
+pub fn assume_split(split: Split, n: usize) {
+    match split {
+        Split::All => {},
+        Split::NotOne => kani::assume(n != 1),
+        Split::One => kani::assume(n == 1),
+    }
+}
+
+#[derive(Default)]
+pub struct QFlags {
+    pub empty: bool,
+    pub fractional: bool,
+    pub distinct_neighbours: bool,
+    pub null_first: bool,
+    pub upper_half: bool,
+}
+
+/// Judge one result of vquantile(q = QGRID[qi], method m) against the sorted valid keys s[0..n].
+pub fn judge_quantile<const N: usize>(s: &[i32; N], n: usize, qi: usize, m: u8, r: f64, fl: &mut QFlags) {
+    if n == 0 {
+        fl.empty = true;
+        assert!(r != r, "quantile of no valid element is null");
+        return;
+    }
+    assert!(r == r, "quantile is null only when there is no valid element");
+    let p = &QTAB[n][qi];
+    let (lo, hi) = (s[p.lo] as f64, s[p.hi] as f64);
+    if p.fractional {
+        fl.fractional = true;
+        if s[p.lo] != s[p.hi] {
+            fl.distinct_neighbours = true;
+        }
+    }
+    match m {
+        1 => assert!(r == lo, "Lower is the sorted valid element at floor((n-1)q)"),
+        2 => assert!(r == hi, "Higher is the sorted valid element at ceil((n-1)q)"),
+        3 => assert!(r == (lo + hi) / 2., "MidPoint is the mean of the two neighbours"),
+        _ => {
+            if !p.fractional {
+                assert!(r == lo, "Linear at an integral position is that element");
+            } else {
+                let want = lo + (hi - lo) * p.frac;
+                let d = r - want;
+                assert!(d <= 1e-9 && d >= -1e-9, "Linear is lo + (hi - lo) * frac");
+            }
+        },
+    }
+}
+
+/// One vquantile call: q index symbolic over the bit mask `qs`, method symbolic over the bit mask
+/// `methods`, valid count n symbolic via the null mask, restricted to the slice `split`.
+pub fn quantile_case<T: Elt, const N: usize>(small: bool, qs: u8, methods: u8, split: Split, fl: &mut QFlags)
+where
+    T::Inner: Number,
+{
+    let keys: [Option<i32>; N] = sym_keys(small);
+    let (s, n) = sorted_valid(&keys);
+    assume_split(split, n);
+    let qi: usize = kani::any();
+    kani::assume(qi < 7 && (qs >> qi) & 1 == 1);
+    kani::assume(QTAB[n][qi].on_grid);
+    let m: u8 = kani::any();
+    kani::assume(m < 4 && (methods >> m) & 1 == 1);
+    let v: Vec<T> = to_vec(&keys);
+    if N > 0 && keys[0].is_none() && n > 0 {
+        fl.null_first = true;
+    }
+    if qi > 3 {
+        fl.upper_half = true;
+    }
+    let r = v.vquantile(QGRID[qi].2, method_of(m)).unwrap();
+    judge_quantile(&s, n, qi, m, r, fl);
+}
+
+/// vmedian == Linear quantile at 1/2
+pub fn median_case<T: Elt, const N: usize>(small: bool, split: Split, fl: &mut QFlags)
+where
+    T::Inner: Number,
+{
+    let keys: [Option<i32>; N] = sym_keys(small);
+    let (s, n) = sorted_valid(&keys);
+    assume_split(split, n);
+    let v: Vec<T> = to_vec(&keys);
+    if N > 0 && keys[0].is_none() && n > 0 {
+        fl.null_first = true;
+    }
+    let r = v.vmedian();
+    judge_quantile(&s, n, 3, 0, r, fl);
+}
+
+// ---------------------------------------------------------------------------------------------
+// vpercentile_of
+// ---------------------------------------------------------------------------------------------
+
+#[derive(Default)]
+pub struct PFlags {
+    pub tie: bool,
+    pub absent: bool,
+    pub with_null: bool,
+}
+impl PFlags {
+    pub fn merge(&mut self, o: PFlags) {
+        self.tie |= o.tie;
+        self.absent |= o.absent;
+        self.with_null |= o.with_null;
+    }
+}
+
+pub fn percentile_case<T: Elt, const N: usize>(small: bool) -> PFlags
+where
+    T::Inner: Number + PartialOrd,
+{
+    let keys: [Option<i32>; N] = sym_keys(small);
+    let score: Option<i32> = if kani::any() { Some(if small { small_i32(-3, 3) } else { kani::any() }) } else { None };
+    let m: u8 = kani::any();
+    kani::assume(m < 3);
+    let method = match m {
+        0 => PercentileOfMethod::Rank,
+        1 => PercentileOfMethod::Weak,
+        _ => PercentileOfMethod::Strict,
+    };
+    let v: Vec<T> = to_vec(&keys);
+    let r = v.vpercentile_of(T::from_key(score), method);
+    let (mut less, mut eq, mut tot) = (0usize, 0usize, 0usize);
+    let mut i = 0;
+    while i < N {
+        if let (Some(x), Some(sc)) = (keys[i], score) {
+            tot += 1;
+            if x < sc {
+                less += 1;
+            } else if x == sc {
+                eq += 1;
+            }
+        }
+        i += 1;
+    }
+    let fl = PFlags { tie: eq > 1, absent: eq == 0 && tot > 0, with_null: tot > 0 && tot < N };
+    if score.is_none() {
+        assert!(r != r, "percentile of a null score is null");
+        return fl;
+    }
+    if tot == 0 {
+        assert!(r != r, "percentile among no valid element is null");
+        return fl;
+    }
+    match m {
+        0 => {
+            // mean of the percentage ranks less+1 ..= less+eq of the matching scores; a score that
+            // does not occur ranks like the elements below it
+            if eq == 0 {
+                assert!(r == less as f64 / tot as f64, "Rank of an absent score is less/total");
+            } else {
+                assert!(
+                    r == (2 * less + eq + 1) as f64 / (2 * tot) as f64,
+                    "Rank is the average percentage rank (less + (eq+1)/2)/total"
+                );
+            }
+        },
+        1 => assert!(r == (less + eq) as f64 / tot as f64, "Weak is (less+equal)/total"),
+        _ => assert!(r == less as f64 / tot as f64, "Strict is less/total"),
+    }
+    fl
+}
+
+// ---------------------------------------------------------------------------------------------
+// vrank
+// ---------------------------------------------------------------------------------------------
+
+#[derive(Default)]
+pub struct RFlags {
+    pub tie: bool,
+    pub null_and_valid: bool,
+}
+impl RFlags {
+    pub fn merge(&mut self, o: RFlags) {
+        self.tie |= o.tie;
+        self.null_and_valid |= o.null_and_valid;
+    }
+}
+
+pub fn rank_case<T: Elt, const N: usize>(small: bool, pct: bool, rev: bool) -> RFlags
+where
+    T::Inner: PartialOrd,
+{
+    let keys: [Option<i32>; N] = sym_keys(small);
+    let v: Vec<T> = to_vec(&keys);
+    let out: Vec<f64> = v.vrank(pct, rev);
+    assert!(out.len() == N, "rank output is input-length");
+    let mut nv = 0usize;
+    let mut i = 0;
+    while i < N {
+        if keys[i].is_some() {
+            nv += 1;
+        }
+        i += 1;
+    }
+    let mut fl = RFlags { tie: false, null_and_valid: nv > 0 && nv < N };
+    let mut i = 0;
+    while i < N {
+        let r = out[i];
+        match keys[i] {
+            None => assert!(r != r, "null element gets a null rank"),
+            Some(x) => {
+                let (mut before, mut eq) = (0usize, 0usize);
+                let mut j = 0;
+                while j < N {
+                    if let Some(y) = keys[j] {
+                        if (!rev && y < x) || (rev && y > x) {
+                            before += 1;
+                        } else if y == x {
+                            eq += 1;
+                        }
+                    }
+                    j += 1;
+                }
+                if eq > 1 {
+                    fl.tie = true;
+                }
+                let twice = (2 * before + eq + 1) as f64;
+                if pct {
+                    assert!(r == twice / (2 * nv) as f64, "pct rank is the average rank over the valid count");
+                } else {
+                    assert!(r * 2.0 == twice, "rank is the average rank: 2*rank == 2*before + equal + 1");
+                }
+            },
+        }
+        i += 1;
+    }
+    fl
+}
+
+// ---------------------------------------------------------------------------------------------
+// vpartition / varg_partition
+// ---------------------------------------------------------------------------------------------
+
+#[derive(Default)]
+pub struct PartFlags {
+    /// fewer than k+1 valid elements: pads required
+    pub padded: bool,
+    /// more than k+1 valid elements: a genuine selection
+    pub selected: bool,
+    pub null_in_input: bool,
+    pub k_beyond_len: bool,
+}
+impl PartFlags {
+    pub fn merge(&mut self, o: PartFlags) {
+        self.padded |= o.padded;
+        self.selected |= o.selected;
+        self.null_in_input |= o.null_in_input;
+        self.k_beyond_len |= o.k_beyond_len;
+    }
+}
+
+/// expected j-th extreme valid key (ascending for !rev, descending for rev)
+fn want_at<const N: usize>(s: &[i32; N], n: usize, rev: bool, j: usize) -> i32 {
+    if rev { s[n - 1 - j] } else { s[j] }
+}
+
+/// `M` must be N + 3 (room for k+1 <= N+2 entries and one excess entry).
+pub fn partition_case<T: Elt, const N: usize, const M: usize>(keys: &[Option<i32>; N], k: usize, sort: bool, rev: bool) -> PartFlags
+where
+    T::Inner: PartialOrd,
+{
+    let (s, n) = sorted_valid(keys);
+    let v: Vec<T> = to_vec(keys);
+    let mut got: [Option<i32>; M] = [None; M];
+    let mut cnt = 0usize;
+    {
+        let mut it = v.vpartition(k, sort, rev);
+        let mut c = 0;
+        while c < M {
+            match it.next() {
+                Some(x) => {
+                    got[cnt] = x.key();
+                    cnt += 1;
+                },
+                None => break,
+            }
+            c += 1;
+        }
+    }
+    let take = umin(k + 1, n);
+    let fl = PartFlags { padded: n < k + 1, selected: n > k + 1, null_in_input: n < N, k_beyond_len: k + 1 > N };
+    assert!(cnt == k + 1, "partition yields exactly k+1 entries");
+    // everything below is stated on the entries actually produced
+    let mut nn = 0usize;
+    let mut vals = [0i32; M];
+    let mut j = 0;
+    while j < cnt {
+        if let Some(x) = got[j] {
+            // insertion into vals (ascending for !rev, descending for rev)
+            let mut p = nn;
+            while p > 0 && ((!rev && vals[p - 1] > x) || (rev && vals[p - 1] < x)) {
+                vals[p] = vals[p - 1];
+                p -= 1;
+            }
+            vals[p] = x;
+            nn += 1;
+        }
+        j += 1;
+    }
+    assert!(nn == take, "non-pad entries number min(k+1, valid count): pads only when fewer exist");
+    let mut j = 0;
+    while j < nn && j < take {
+        assert!(vals[j] == want_at(&s, n, rev, j), "non-pad entries are the k+1 extreme valid elements (multiset)");
+        j += 1;
+    }
+    if sort {
+        let mut j = 0;
+        while j < cnt {
+            if j < take {
+                assert!(got[j] == Some(want_at(&s, n, rev, j)), "sorted partition lists the extremes in order");
+            } else {
+                assert!(got[j].is_none(), "sorted partition has its pads at the end");
+            }
+            j += 1;
+        }
+    }
+    fl
+}
+
+pub fn arg_partition_case<T: Elt, const N: usize, const M: usize>(keys: &[Option<i32>; N], k: usize, sort: bool, rev: bool) -> PartFlags
+where
+    T::Inner: Number,
+{
+    let (s, n) = sorted_valid(keys);
+    let v: Vec<T> = to_vec(keys);
+    let mut got: [i32; M] = [0; M];
+    let mut cnt = 0usize;
+    {
+        let mut it = v.varg_partition(k, sort, rev);
+        let mut c = 0;
+        while c < M {
+            match it.next() {
+                Some(x) => {
+                    got[cnt] = x;
+                    cnt += 1;
+                },
+                None => break,
+            }
+            c += 1;
+        }
+    }
+    let take = umin(k + 1, n);
+    let fl = PartFlags { padded: n < k + 1, selected: n > k + 1, null_in_input: n < N, k_beyond_len: k + 1 > N };
+    assert!(cnt == k + 1, "arg-partition yields exactly k+1 entries");
+    let mut nn = 0usize;
+    let mut vals = [0i32; M];
+    let mut seen = [false; N];
+    let mut j = 0;
+    while j < cnt {
+        let ix = got[j];
+        if ix != -1 {
+            assert!(ix >= 0 && (ix as usize) < N, "index entries are in range (pads are -1)");
+            let ix = ix as usize;
+            assert!(!seen[ix], "index entries are distinct");
+            seen[ix] = true;
+            match keys[ix] {
+                None => assert!(false, "index entries never point to a null element"),
+                Some(x) => {
+                    let mut p = nn;
+                    while p > 0 && ((!rev && vals[p - 1] > x) || (rev && vals[p - 1] < x)) {
+                        vals[p] = vals[p - 1];
+                        p -= 1;
+                    }
+                    vals[p] = x;
+                    nn += 1;
+                },
+            }
+        }
+        j += 1;
+    }
+    assert!(nn == take, "non-pad indices number min(k+1, valid count): pads only when fewer exist");
+    let mut j = 0;
+    while j < nn && j < take {
+        assert!(vals[j] == want_at(&s, n, rev, j), "indexed elements are the k+1 extreme valid elements (multiset)");
+        j += 1;
+    }
+    if sort {
+        let mut j = 0;
+        while j < cnt {
+            if j < take {
+                let ix = got[j];
+                assert!(
+                    ix >= 0 && (ix as usize) < N && keys[ix as usize] == Some(want_at(&s, n, rev, j)),
+                    "sorted arg-partition lists the extremes in order"
+                );
+            } else {
+                assert!(got[j] == -1, "sorted arg-partition has its pads at the end");
+            }
+            j += 1;
+        }
+    }
+    fl
+}
+
+include!("c12_gen.rs");
